@@ -43,6 +43,12 @@ Check C02_oracle_sound : forall c,
 Check C02_restore_invariant : forall ops, prun_r ops = prun (fills_of_ops ops).
 Check eq_refl : pstep_r = fun s o => match o with PFill f => pstep s f | PRestore => s end.
 
+Check C02_rejected_fill_noop : forall p xs f, f_inst f <> p_inst p ->
+  pm_update (Some p) f = (Some p, None) /\ pstep (Some p, xs) f = (Some p, xs).
+Check C02_rejected_fill_noop_history : forall i fs g rest,
+  Forall (valid_fill i) fs -> fst (prun fs) <> None -> f_inst g <> i ->
+  prun (fs ++ g :: rest) = prun (fs ++ rest).
+
 (* the definitions the statements rest on, pinned by evaluation *)
 Check eq_refl : valid_fill = fun i f => f_inst f = i /\ 0 < f_qty f.
 Check eq_refl : prun = fun fs => fold_left pstep fs (None, []%list).
@@ -79,27 +85,29 @@ Definition good_obs := [
   mkOS (Some (mkOP 0 Sell 100 4 4 0 (-1) 1 0 1000 1000 (1%N :: nil))) None;
   mkOS None (Some (mkOX 0 Sell 100 4 59 1 0 1000 2000 [1%N; 2%N])) ]%list.
 (* short 4 @ 100 (fee 1) closed at 85: +60 - 1 *)
-Check eq_refl : judge (CFills fills good_obs true (Some (1%N, 59)) (mkMeta 0 1 [] true)) = 0%N.
+Check eq_refl : judge (CFills fills good_obs true (Some (1%N, 59)) (mkMeta 0 1 [] true [] true)) = 0%N.
 (* same observations when the InstrumentState is a perpetual with contract size 0.001 *)
-Check eq_refl : judge (CFills fills good_obs true (Some (1%N, 59)) (mkMeta 1 (1 # 1000) [1%N; 2%N] true)) = 0%N.
+Check eq_refl : judge (CFills fills good_obs true (Some (1%N, 59)) (mkMeta 1 (1 # 1000) [1%N; 2%N] true (1%N :: nil) true)) = 0%N.
 (* a persist / restore round trip that changed the state: rejected *)
-Check eq_refl : judge (CFills fills good_obs true (Some (1%N, 59)) (mkMeta 0 1 (1%N :: nil) false)) = 2%N.
+Check eq_refl : judge (CFills fills good_obs true (Some (1%N, 59)) (mkMeta 0 1 (1%N :: nil) false [] true)) = 2%N.
+(* a fill for another instrument that was not rejected cleanly (state changed): rejected *)
+Check eq_refl : judge (CFills fills good_obs true (Some (1%N, 59)) (mkMeta 0 1 [] true (1%N :: nil) false)) = 2%N.
 (* realised PnL with the sign of a long: rejected by the oracle *)
 Check eq_refl : judge (CFills fills
   [ mkOS (Some (mkOP 0 Sell 100 4 4 0 (-1) 1 0 1000 1000 (1%N :: nil))) None;
-    mkOS None (Some (mkOX 0 Sell 100 4 (-61) 1 0 1000 2000 [1%N; 2%N])) ]%list true (Some (1%N, -61)) (mkMeta 0 1 [] true)) = 2%N.
+    mkOS None (Some (mkOX 0 Sell 100 4 (-61) 1 0 1000 2000 [1%N; 2%N])) ]%list true (Some (1%N, -61)) (mkMeta 0 1 [] true [] true)) = 2%N.
 (* no closed record although the net quantity reached zero: rejected *)
 Check eq_refl : judge (CFills fills
   [ mkOS (Some (mkOP 0 Sell 100 4 4 0 (-1) 1 0 1000 1000 (1%N :: nil))) None;
-    mkOS (Some (mkOP 0 Sell 100 0 4 0 59 1 0 1000 2000 [1%N; 2%N])) None ]%list true (Some (0%N, 0)) (mkMeta 0 1 [] true)) = 2%N.
+    mkOS (Some (mkOP 0 Sell 100 0 4 0 59 1 0 1000 2000 [1%N; 2%N])) None ]%list true (Some (0%N, 0)) (mkMeta 0 1 [] true [] true)) = 2%N.
 (* the closing fill's id missing from the closed record: rejected *)
 Check eq_refl : judge (CFills fills
   [ mkOS (Some (mkOP 0 Sell 100 4 4 0 (-1) 1 0 1000 1000 (1%N :: nil))) None;
-    mkOS None (Some (mkOX 0 Sell 100 4 59 1 0 1000 2000 (1%N :: nil))) ]%list true (Some (1%N, 59)) (mkMeta 0 1 [] true)) = 2%N.
+    mkOS None (Some (mkOX 0 Sell 100 4 59 1 0 1000 2000 (1%N :: nil))) ]%list true (Some (1%N, 59)) (mkMeta 0 1 [] true [] true)) = 2%N.
 (* the tear sheet did not count the closed record: rejected *)
-Check eq_refl : judge (CFills fills good_obs true (Some (0%N, 0)) (mkMeta 0 1 [] true)) = 2%N.
+Check eq_refl : judge (CFills fills good_obs true (Some (0%N, 0)) (mkMeta 0 1 [] true [] true)) = 2%N.
 (* model and oracle accept what the model produces on the non-vacuity history *)
 Check eq_refl : oracle_accepts_model (CFills
   [ mkOF 1 0 1 Buy 100 2 1; mkOF 2 0 2 Sell 110 1 1; mkOF 3 0 3 Buy 120 1 1; mkOF 4 0 4 Sell 130 5 5;
-    mkOF 5 0 5 Buy 90 4 2; mkOF 6 0 6 Buy 95 1 0; mkOF 7 0 7 Sell 100 2 1 ]%list [] true None (mkMeta 0 1 [] true)) = true.
+    mkOF 5 0 5 Buy 90 4 2; mkOF 6 0 6 Buy 95 1 0; mkOF 7 0 7 Sell 100 2 1 ]%list [] true None (mkMeta 0 1 [] true [] true)) = true.
 End PinCorr.
